@@ -2,5 +2,6 @@ SPECIFICATION Spec
 INVARIANT NoException
 INVARIANT IoPathsLand
 INVARIANT InterconnectsLand
+INVARIANT EntryHasLine
 INVARIANT EntriesHaveLines
 CHECK_DEADLOCK FALSE
